@@ -283,6 +283,9 @@ def oracle_hrefresh(case, impl):
     f = case.split(" ")
     dec = lambda t: [] if t == "-" else [unhex(x) for x in t.split(",")]
     n1, n2, pool = dec(f[2]), dec(f[3]), dec(f[4])
+    if "STUCK" in impl:
+        return ("the %s source never answered again after a refresh whose read failed (%s): every later lookup of a client's name blocks"
+                % ("lease-file" if f[0] == "lrefresh" else "hosts-file", f[1]))
     m = re.match(r"p1=([LU]*) p2=([LU]*) p3=([LU]*)$", impl)
     if not m or len(m.group(1)) != len(pool) or len(m.group(2)) != len(pool) or len(m.group(3)) != len(pool):
         return "unexpected harness output " + impl[:60]
